@@ -54,13 +54,17 @@ def expected_rows(part, rests=False):
         # end of the tie chain
         last = n
         seen = 0
+        summed = int(n.end.t) - on if n.end is not None else 0
         while getattr(last, "tie_next", None) is not None and seen < 10000:
             last = last.tie_next
+            summed += int(last.end.t) - int(last.start.t)
             seen += 1
         off = int(last.end.t) if last.end is not None else on
+        chain_gap = (off - on) != summed          # a tie chain with a gap (importer artefact): its length is not defined by the statement
         if rests:
             off = int(n.end.t)
-        r = {"obj": n, "id": n.id, "onset_div": on, "duration_div": off - on, "voice": n.voice, "staff": n.staff}
+        r = {"obj": n, "id": n.id, "onset_div": on, "duration_div": off - on, "voice": n.voice, "staff": n.staff,
+             "chain_gap": chain_gap and not rests}
         if not rests:
             r["pitch"] = P.midi(n.step, n.alter, n.octave)
             r["step"], r["alter"], r["octave"] = n.step, (n.alter or 0), n.octave
@@ -123,6 +127,9 @@ def compare(ctx, label, arr, rows, opts, d_s, w, rests=False, scale=1, prefix=""
         ctx.check(4)
         if int(a["onset_div"]) != r["onset_div"] * scale:
             return bad("onset_div", int(a["onset_div"]), r["onset_div"] * scale)
+        if r.get("chain_gap"):
+            ctx.ambiguous()
+            continue
         if int(a["duration_div"]) != r["duration_div"] * scale:
             tie = "-tie-chain" if getattr(r["obj"], "tie_next", None) is not None else ("-grace" if r["is_grace"] else "")
             return bad("duration_div", int(a["duration_div"]), r["duration_div"] * scale, f"{label}-cell-duration_div{tie}")
